@@ -257,7 +257,7 @@ class C06(Prop):
     known_matchers = {"F27": lambda spec, sig, msg: sig == "observe.distance.common_prefactor_ignored"}
 
     def budget(self, tier):
-        return dict(examples=320, shards=16) if tier == "quick" else dict(examples=10000, shards=16)
+        return dict(examples=960, shards=16) if tier == "quick" else dict(examples=40000, shards=16)
 
     def strategy(self, tier):
         return cases(tier)
